@@ -12,6 +12,7 @@ NOT_YET = {
     "C13": ["group, dict, RLE-with-header, Elias, BP128, adaptive capacity theorems: monitors + correspondence only so far"],
     "C16": ["PFOR, group, Elias, BP128, adaptive, float metadata: monitors + correspondence only so far"],
     "C05": [],
+    "C11": [],
     "C12": [],
 }
 out = {}
